@@ -303,6 +303,9 @@ func project(sc *Scenario, trace string) (Projection, error) {
 // compare returns "" when the implementation's observation is the model's projection.
 func compare(sc *Scenario, p *Projection, o *Obs) string {
 	var d []string
+	if sc.Plain && sc.Fail != "" && p.Reply == "ok" {
+		p.Reply = "none" // Proceed on a non-CONNECT request writes nothing: a later failure is a bare close
+	}
 	if p.Reply != o.Reply {
 		d = append(d, fmt.Sprintf("reply model=%s impl=%s", p.Reply, o.Reply))
 	}
